@@ -210,3 +210,9 @@ mod tests {
         Ok(())
     }
 }
+
+// Verification hook (inactive unless compiled by the Kani verifier): pulls the
+// proof harnesses for this module in from the directory named by
+// DATAFUSION_VERIF_DIR so that they can reach private items.
+#[cfg(kani)]
+include!(concat!(env!("DATAFUSION_VERIF_DIR"), "/kani/physical_plan/in_progress_spill_file.rs"));
